@@ -1,9 +1,11 @@
 import Driver.Util
 import Driver.C20
+import Driver.C09
 
 def main (args : List String) : IO UInt32 := do
   let stdin ← IO.getStdin
   let stdout ← IO.getStdout
   match args with
   | ["c20"] => Driver.lineLoop stdin stdout () Driver.C20.step; return 0
+  | ["c09"] => Driver.lineLoop stdin stdout (Zix.Bump.init 0 0) Driver.C09.step; return 0
   | _ => IO.eprintln "usage: zixdriver <component> < script"; return 2
